@@ -22,7 +22,9 @@ MANIFEST = dict(
               'formulas for every rounding with |rnd t - t| <= u|t| + eta, instantiated for binary64 with Flocq; '
               'bit-exact correspondence of the extracted expression trees, of every dispatch row, of the Gauss-Jordan '
               'interpreter instantiated with IEEE binary64 (Coq primitive floats) and of the rounding model against '
-              'CPython floats; numeric oracle on the complete operand-type matrix and on composed rotations',
+              'CPython floats; census of all in-place operator methods (class bodies + expanded exec() templates) with a '
+              'decidable acceptance test; numeric oracle on the complete operand-type matrix, composed rotations, every in-place '
+              'operator / in-place rotation method and the conversion entry points; every stage under an exception / hang guard',
     text='Theorems in Props/C04.v, about the objects read out of MatrixBase.from_angle/from_pitch/from_yaw/from_roll/'
          '_mat_mul/_vec_rot/transpose/_to_angle/inverse and the @ methods on every run: from_angle is orthonormal with '
          'determinant 1 and equals roll*pitch*yaw in the row-vector convention (axes fixed, handedness at +90 degrees); '
@@ -48,7 +50,18 @@ MANIFEST = dict(
          'hypothesis, measured on sampled angles with 50-digit arithmetic); '
          'for every (operator form, left class, right class, same-object?) the dispatch table generated from '
          '__matmul__/__rmatmul__/__imatmul__ returns the specification product, a fresh result and unchanged operands '
-         '(kernel-checked table_ok = true + generic soundness theorem).  The trees, the table and the inverse program are '
+         '(kernel-checked table_ok = true + generic soundness theorem); round 4: `l @= r` on a MUTABLE receiver returns the '
+         'receiver object itself holding the specification product (so every alias sees it), on a frozen receiver a new object '
+         'with the receiver untouched (inplace_ok is part of table_ok; c04_inplace_stores_into_self), and the in-place row '
+         'denotes the same value as the pure row (c04_inplace_agrees_with_pure); x @ Angle and x @ Matrix.from_angle(Angle) '
+         'are the same computation under EVERY interpretation of the table terms, hence bit for bit in binary64 '
+         '(c04_angle_operand_same_computation, confirmed on the implementation on every run); every in-place operator method '
+         '(+= -= *= /= //= %= @=, also the exec()-generated ones) belongs to mutable classes only and every path that returns '
+         'a value returns the receiver after storing into it (census_ok, c04_inplace_census_sound); Matrix->Angle->Matrix in '
+         'binary64 outside the gimbal band is within 2e-13 of the exact rotation given sin/cos of the float Euler angles within '
+         '2e-14 of the exact ones (c04_euler_roundtrip_binary64; the hypothesis is measured against 60-digit arithmetic on every '
+         'run: about 1.5e-15); c04_property composes all parts into one statement whose hypotheses are atan2_spec and the four '
+         'acceptance tests, and Props/C04Today.v proves the four tests for today\'s generated objects.  The trees, the table and the inverse program are '
          'compared bit-for-bit with the running implementation; all identities are searched numerically within '
          '1e-9*max(1,|v|).',
     note='Exact real arithmetic except for the rounding theorems of _vec_rot/_mat_mul (rounded-real model of binary64: round '
@@ -60,7 +73,11 @@ MANIFEST = dict(
          'unroller; tied by the bit-exact correspondences; the polynomial expansion of the reified pieces is re-proved by ring), '
          'libm sin/cos/atan2/sqrt, Coq primitive floats = hardware binary64.  inverse() returning on every rotation is proved in exact arithmetic only: the 1e-5 '
          'threshold is passed with the proved margins (|pivot| bounds of the final intervals), but no float error bound for '
-         'the elimination is proved.  The Cython twin _math.pyx cannot be built and is not verified.',
+         'the elimination is proved.  The in-place rotation methods (Vec.localise, Vec.transform(), Angle.transform(), '
+         'Vec.rotate) and the conversion entry points (copy, freeze/thaw, constructors, pickle, forward/left/up, from_angstr, '
+         'to_matrix) are searched only.  The in-place census is a path classification (what each path returns, how many stores '
+         'into the receiver precede it), not a value semantics: the values of += ... %= are compared with the pure operators by '
+         'the oracle only; @= has the full dispatch model.  The Cython twin _math.pyx cannot be built and is not verified.',
 )
 
 CONCRETE = tr.CONCRETE
@@ -426,7 +443,7 @@ def rand_vals(rng: random.Random) -> dict:
 def corr_dispatch(ck: Ck, F: dict, rows: list[dict]) -> None:
     """Every row of the generated dispatch table against the implementation: result or NotImplemented, class and identity
     of the result, which operands changed, and the value (term evaluated with the extracted formulas) bit for bit."""
-    reps = ck.budget(3, 40)
+    reps = ck.budget(6, 40)
     bad: list[dict] = []
     for row in rows:
         for _ in range(reps):
@@ -705,7 +722,7 @@ def shrink_vals(vals: dict, pred) -> dict:
 
 
 def search_operands(ck: Ck, found: dict) -> None:
-    reps = ck.budget(4, 60)
+    reps = ck.budget(10, 60)
     for form, lc, rc, alias in all_triples():
         for _ in range(reps):
             vl, vr = rand_vals(ck.rng), rand_vals(ck.rng)
@@ -1082,7 +1099,7 @@ INPLACE_METHODS = [('Vec.localise', ['Angle', 'FrozenAngle', 'Matrix', 'FrozenMa
 
 
 def search_inplace(ck: Ck, found: dict) -> None:
-    reps = ck.budget(2, 25)
+    reps = ck.budget(6, 25)
     for iname, pname, sym in INPLACE_OPS:
         for lc in INPLACE_RECEIVERS:
             for rc in INPLACE_OPERANDS:
@@ -1104,7 +1121,7 @@ def search_inplace(ck: Ck, found: dict) -> None:
                                                                    'r': rc, 'left': vl, 'right': vr})
     for name, rcs in INPLACE_METHODS:
         for rc in rcs:
-            for _ in range(ck.budget(6, 60)):
+            for _ in range(ck.budget(20, 60)):
                 vl, vr = rand_vals_s(ck.rng), rand_vals_s(ck.rng)
                 ck.count('inplace_method_cases')
                 ck.hist('inplace_method', name)
@@ -1183,7 +1200,7 @@ def conversion_problems(vals: dict) -> list[tuple[str, str]]:
 
 
 def search_conversions(ck: Ck, found: dict) -> None:
-    for _ in range(ck.budget(60, 1500)):
+    for _ in range(ck.budget(200, 1500)):
         vals = rand_vals(ck.rng)
         ck.count('conversion_cases')
         ck.seen(('conv', vals['V'], vals['A'], vals['M']))
@@ -1460,7 +1477,10 @@ def run(ck: Ck) -> None:
                'correspondence: 14 input classes (rotations of the four angle classes, random, small integers with exact '
                'pivot ties, rank 2, rank 1, scaled signed permutations, diagonals around the 1e-5 threshold, magnitudes '
                '1e-150..1e150, signed zeros, one inf/nan entry, corpus); distinct by the bit patterns of the nine inputs; all '
-               'three outcomes (result / no-inverse / ZeroDivisionError) occur.')
+               'three outcomes (result / no-inverse / ZeroDivisionError) occur.  In-place forms: 7 in-place operators x 6 receiver '
+               'classes x 9 operand classes (pairs the pure operator rejects are skipped and counted), 4 in-place rotation '
+               'methods x rotation operand classes; conversions: ~45 entry points per random (vector, angle, rotation) triple; '
+               'float round trip: a third of the rotations with horizontal length in [0.0011, 0.1].')
     ck.assumptions += [
         'Arithmetic in the theorems is over the real numbers; IEEE rounding is outside the model (property: "up to rounding"). '
         'The numeric oracle bounds the rounding error by 1e-9*max(1,|v|) on the sampled inputs only.',
@@ -1473,6 +1493,14 @@ def run(ck: Ck) -> None:
         'Vec arithmetic used by inverse() (-=, *, /= generated by exec() templates, componentwise) is not translated; it is '
         'covered by the bit-exact correspondence of the whole method.',
     ]
+    ck.assumptions += [
+        'In-place protocol: a mutable receiver of an in-place operator must be the object returned (property: "in-place and frozen '
+        'variants included"; a rebound name with a stale receiver breaks `for a in angles: a @= m`).',
+        'c04_euler_roundtrip_binary64: the accuracy of atan2 / degrees / % 360 / radians / sin / cos in binary64 is one visible '
+        'hypothesis (distance of the six sin / cos values from those of the exact Euler angles), measured on sampled rotations only.',
+    ]
+    ck.trusted += ['translate/c04_inplace.py (in-place census: expansion of the exec() templates and path classification; its '
+                   'per-class method sets are compared with vars() of the running classes on every run)']
     ck.trusted += ['translate/c04_formulas.py symbolic executors (formulas: tied bit-for-bit to the implementation on every run; '
                    'dispatch: every table row compared with the implementation on every run)',
                    'Coq.Reals classical axioms (listed per theorem in axioms_per_theorem)',
